@@ -4,6 +4,7 @@ import (
 	"encoding/json"
 	"fmt"
 	"math"
+	"math/big"
 	"sort"
 
 	"github.com/aclements/go-moremath/stats"
@@ -29,11 +30,22 @@ import (
 //           first value whose cumulative weight exceeds q W; when q W is
 //           within (1e-12 + 16 n eps) W of a cumulative weight both
 //           neighbouring answers are accepted (ambiguity window).
-//   M-law   monotone in q over the sorted q list; within [min,max] (both with
-//           a slack of 4 eps M for the rounding of the interpolation);
+//   M-law   monotone in q over the sorted q list (slack 4 eps M); within
+//           [min,max] and within the closed interval of the two order
+//           statistics bracketing h (for any h' within 16 eps (h+1) of h),
+//           both with NO slack: a convex combination does not leave the
+//           interval, so equal neighbours (and min == max) give that value
+//           exactly;
 //           identical result for the given order, another permutation, the
 //           sorted data with Sorted=true and with Sorted=false;
-//           IQR() == Quantile(.75) - Quantile(.25) of the same sample.
+//           IQR() == Quantile(.75) - Quantile(.25) of the same sample
+//           (bit-exact, unweighted and weighted).
+//   M-hist  the same backing arrays overwritten in place with another sample
+//           of equal length (other weights), then two samples alternating
+//           through one buffer: every answer is judged against the data the
+//           buffer holds at the time of the call.
+//   M-scale weighted: whole weight vectors times 2^+-40, 2^+-200 (exact): the
+//           expected answers are those of the unscaled weights.
 //   M-guard Xs and Weights (with canaries before the data and in the spare
 //           capacity behind it) are bit-identical after every call.
 //   M-panic every call.
@@ -47,6 +59,18 @@ type c10Case struct {
 	// Empty-sample variant bits (only when len(Xs)==0): 1 = Xs non-nil,
 	// 2 = Weights non-nil (empty), 4 = Sorted.
 	Empty int `json:"empty,omitempty"`
+	// The weights presented to the library are Ws * 2^WExp (exact scaling:
+	// every answer of the weighted rule is unchanged by construction).
+	WExp int `json:"wexp,omitempty"`
+	// History (only when len(Xs2)==len(Xs)): after all queries on (Xs,Ws)
+	// the SAME backing arrays are overwritten in place with (Xs2, Ws2 *
+	// 2^WExp2) and queried at Qs2; then the two samples alternate Alt times
+	// through each buffer in turn, queried at the first interior q of Qs2.
+	Xs2   []mon.F `json:"xs2,omitempty"`
+	Ws2   []mon.F `json:"ws2,omitempty"`
+	Qs2   []mon.F `json:"qs2,omitempty"`
+	WExp2 int     `json:"wexp2,omitempty"`
+	Alt   int     `json:"alt,omitempty"`
 }
 
 func init() {
@@ -155,6 +179,33 @@ func c10Judge(w *mon.W, c c10Case) {
 	}
 }
 
+// load overwrites the presented sample IN PLACE (same backing arrays, same
+// slice headers) with other data of the same length and re-arms the guard.
+func (g *c10Guarded) load(xs, ws []float64) {
+	copy(g.s.Xs, xs)
+	for i, v := range g.bufX {
+		g.snapX[i] = math.Float64bits(v)
+	}
+	if g.bufW != nil {
+		copy(g.s.Weights, ws)
+		for i, v := range g.bufW {
+			g.snapW[i] = math.Float64bits(v)
+		}
+	}
+}
+
+// c10Plain strips the history of a case: a violation in the first phase does
+// not depend on what is presented afterwards.
+func c10Plain(c c10Case) c10Case {
+	c.Xs2, c.Ws2, c.Qs2, c.Alt, c.WExp2 = nil, nil, nil, 0, 0
+	return c
+}
+
+const (
+	c10TagReuse = " [same buffers overwritten in place with another sample of equal length]"
+	c10TagAlt   = " [two samples alternating through one buffer]"
+)
+
 // ---------------------------------------------------------------- unweighted
 
 type c10Pt struct {
@@ -170,18 +221,52 @@ func c10Tol(info ref.R8Info) float64 {
 	return (16*c10Eps*(math.Abs(info.H)+1))*info.Gap + 16*c10Eps*info.Mag + c10Tiny
 }
 
+// c10UData is one unweighted data set with its reference-side quantities.
+type c10UData struct {
+	xs, sorted, px []float64
+	min, max       float64
+	memo           map[float64]ref.R8Info
+}
+
+func c10NewUData(xs []float64, permSeed uint64) *c10UData {
+	d := &c10UData{xs: xs, memo: map[float64]ref.R8Info{}}
+	d.sorted = append([]float64(nil), xs...)
+	sort.Float64s(d.sorted)
+	d.min, d.max = d.sorted[0], d.sorted[len(xs)-1]
+	d.px, _ = c10Permute(xs, nil, permSeed)
+	return d
+}
+
+func (d *c10UData) r8(q float64) ref.R8Info {
+	if i, ok := d.memo[q]; ok {
+		return i
+	}
+	i := ref.R8(d.sorted, q)
+	d.memo[q] = i
+	return i
+}
+
+// arr is the arrangement of the data that presentation kind k shows.
+func (d *c10UData) arr(k int) []float64 {
+	switch k {
+	case 0:
+		return d.xs
+	case 3:
+		return d.px
+	}
+	return d.sorted
+}
+
+var c10PresNames = []string{"given order, Sorted=false", "sorted data, Sorted=true", "sorted data, Sorted=false", "another permutation, Sorted=false"}
+
 func c10JudgeUnweighted(w *mon.W, c c10Case) {
 	xs := mon.Un(c.Xs)
-	qs := c10SortedQs(c.Qs)
 	n := len(xs)
-	sorted := append([]float64(nil), xs...)
-	sort.Float64s(sorted)
-	min, max := sorted[0], sorted[n-1]
-	px, _ := c10Permute(xs, nil, c.PermSeed)
+	d := c10NewUData(xs, c.PermSeed)
 
 	repeats := false
 	for i := 1; i < n; i++ {
-		if sorted[i] == sorted[i-1] {
+		if d.sorted[i] == d.sorted[i-1] {
 			repeats = true
 		}
 	}
@@ -189,40 +274,98 @@ func c10JudgeUnweighted(w *mon.W, c c10Case) {
 	w.HitIf(n == 2, "n=2")
 	w.HitIf(n >= 150, "n>=150")
 	w.HitIf(repeats, "repeats")
-	w.HitIf(min == max && n > 1, "all-equal")
+	w.HitIf(d.min == d.max && n > 1, "all-equal")
 	w.HitIf(!sort.Float64sAreSorted(xs), "unsorted-input")
+	w.HitIf(n > 1 && (d.min > 1e307 || d.max < -1e307), "huge-same-sign(|x|>1e307)")
 	w.Note("unweighted")
 
-	pres := []*c10Guarded{
-		c10Present("given order, Sorted=false", xs, nil, false),
-		c10Present("sorted data, Sorted=true", sorted, nil, true),
-		c10Present("sorted data, Sorted=false", sorted, nil, false),
-		c10Present("another permutation, Sorted=false", px, nil, false),
+	pres := make([]*c10Guarded, 4)
+	kind := map[*c10Guarded]int{}
+	for k := range pres {
+		pres[k] = c10Present(c10PresNames[k], d.arr(k), nil, k == 1)
+		kind[pres[k]] = k
 	}
-	sub := func(qq ...float64) c10Case {
-		s := c
+	plain := c10Plain(c)
+	subA := func(qq ...float64) c10Case {
+		s := plain
 		s.Qs = mon.Fs(qq)
 		return s
+	}
+	c10UPhase(w, d, c10SortedQs(c.Qs), pres, subA, "")
+
+	// history: the same buffers, other contents
+	if len(c.Xs2) == n {
+		d2 := c10NewUData(mon.Un(c.Xs2), c.PermSeed^0x9e3779b97f4a7c15)
+		whole := func(...float64) c10Case { return c }
+		w.Hit("buffer-reuse(in-place overwrite)")
+		for _, g := range pres {
+			g.load(d2.arr(kind[g]), nil)
+		}
+		c10UPhase(w, d2, c10SortedQs(c.Qs2), pres, whole, c10TagReuse)
+		// two samples alternating through each buffer in turn; every
+		// query directly follows the overwrite of the buffer it reads
+		if c.Alt > 0 {
+			w.Hit("buffer-alternation")
+			aq := c10AltQs(c.Qs2)
+			for _, g := range pres {
+				for r := 0; r < c.Alt && r < 8; r++ {
+					g.load(d.arr(kind[g]), nil)
+					c10UPhase(w, d, aq, []*c10Guarded{g}, whole, c10TagAlt)
+					g.load(d2.arr(kind[g]), nil)
+					c10UPhase(w, d2, aq, []*c10Guarded{g}, whole, c10TagAlt)
+				}
+			}
+		}
+		w.Distinct(mon.NewHasher().Fs(xs).Fs(d2.xs).Fs(mon.Un(c.Qs)).Fs(mon.Un(c.Qs2)).Sum())
+		return
+	}
+	w.Distinct(mon.NewHasher().Fs(xs).Fs(c10SortedQs(c.Qs)).Sum())
+}
+
+// c10AltQs picks the (at most three) interior query points of the
+// alternation rounds, ascending.
+func c10AltQs(qs []mon.F) []float64 {
+	var out []float64
+	for _, q := range mon.Un(qs) {
+		if q > 0 && q < 1 && len(out) < 3 {
+			out = append(out, q)
+		}
+	}
+	if len(out) == 0 {
+		out = []float64{0.5}
+	}
+	sort.Float64s(out)
+	return out
+}
+
+// c10UPhase queries every q of qs (ascending) on every presentation of pres,
+// all of which currently hold data set d, and applies all oracles. The first
+// presentation is judged against the reference, the others against the first.
+func c10UPhase(w *mon.W, d *c10UData, qs []float64, pres []*c10Guarded, sub func(...float64) c10Case, tag string) {
+	n := len(d.xs)
+	min, max := d.min, d.max
+	rearm := func(g *c10Guarded) {
+		// re-arm so that one defect is not reported once per later call
+		*g = *c10Present(g.name, append([]float64(nil), g.s.Xs...), nil, g.sorted)
 	}
 	// call performs one guarded Quantile call on presentation g
 	call := func(g *c10Guarded, q float64) (float64, bool) {
 		var got float64
 		w.Eval("Quantile")
 		if p, v := mon.Call(func() { got = g.s.Quantile(q) }); p {
-			w.Violate("panic", fmt.Sprintf("Quantile(%v) panicked on n=%d (%s): %v", q, n, g.name, v), sub(q))
+			w.Violate("panic", fmt.Sprintf("Quantile(%v) panicked on n=%d (%s): %v%s", q, n, g.name, v, tag), sub(q))
 			return 0, false
 		}
 		if ok, what := g.intact(); !ok {
-			w.Violate("sample-modified", fmt.Sprintf("Quantile(%v) on n=%d (%s) modified its receiver: %s", q, n, g.name, what), sub(q))
-			// re-arm so that one defect is not reported once per later call
-			*g = *c10Present(g.name, append([]float64(nil), g.s.Xs...), nil, g.sorted)
+			w.Violate("sample-modified", fmt.Sprintf("Quantile(%v) on n=%d (%s) modified its receiver: %s%s", q, n, g.name, what, tag), sub(q))
+			rearm(g)
 		}
 		return got, true
 	}
 
 	pts := make([]c10Pt, 0, len(qs))
 	for _, q := range qs {
-		info := ref.R8(sorted, q)
+		info := d.r8(q)
 		pt := c10Pt{q: q, info: info, tol: c10Tol(info)}
 		inside := q > 0 && q < 1
 		w.HitIf(q < 0, "q<0")
@@ -231,6 +374,7 @@ func c10JudgeUnweighted(w *mon.W, c c10Case) {
 		w.HitIf(inside && info.Lo, "clamp-low(h<1)")
 		w.HitIf(inside && info.Hi, "clamp-high(h>=n)")
 		w.HitIf(inside && info.Integer, "h-exact-integer")
+		w.HitIf(inside && n > 1 && info.BLo == info.BHi && !info.Lo && !info.Hi, "equal-neighbours(exact answer)")
 		if inside && !info.Integer {
 			// q is the float nearest to a break point, or one of its neighbours
 			for _, j := range []int{info.J, info.J + 1} {
@@ -251,29 +395,41 @@ func c10JudgeUnweighted(w *mon.W, c c10Case) {
 			switch {
 			case q <= 0:
 				if !c10Same(got, min) {
-					w.Violate("q<=0", fmt.Sprintf("Quantile(%v)=%v, minimum is %v (n=%d)", q, got, min, n), sub(q))
+					w.Violate("q<=0", fmt.Sprintf("Quantile(%v)=%v, minimum is %v (n=%d)%s", q, got, min, n, tag), sub(q))
 				}
 			case q >= 1:
 				if !c10Same(got, max) {
-					w.Violate("q>=1", fmt.Sprintf("Quantile(%v)=%v, maximum is %v (n=%d)", q, got, max, n), sub(q))
+					w.Violate("q>=1", fmt.Sprintf("Quantile(%v)=%v, maximum is %v (n=%d)%s", q, got, max, n, tag), sub(q))
 				}
 			default:
-				var d float64
+				var dd float64
 				if math.IsNaN(got) || math.IsInf(got, 0) {
-					d = math.NaN()
+					dd = math.NaN()
 				} else {
-					d = ref.F64(ref.Abs(ref.Sub(ref.NF(got), info.Val)))
+					dd = ref.F64(ref.Abs(ref.Sub(ref.NF(got), info.Val)))
 				}
 				oracle := "R8"
 				if info.Mag < 1e-290 {
 					oracle = "R8(subnormal data)" // keeps the margin statistic of the normal range readable
 				}
-				if !w.Err(oracle, d, pt.tol) {
-					w.Violate("R8", fmt.Sprintf("Quantile(%v)=%.17g on n=%d, type 8 estimate is %.17g (h=%.17g, floor %d; |diff|=%.3g > tol %.3g)", q, got, n, want, info.H, info.J, d, pt.tol), sub(q))
+				if !w.Err(oracle, dd, pt.tol) {
+					w.Violate("R8", fmt.Sprintf("Quantile(%v)=%.17g on n=%d, type 8 estimate is %.17g (h=%.17g, floor %d; |diff|=%.3g > tol %.3g)%s", q, got, n, want, info.H, info.J, dd, pt.tol, tag), sub(q))
 				}
-				slack := 4*c10Eps*info.Mag + c10Tiny
-				if !(got >= min-slack && got <= max+slack) && !math.IsNaN(got) {
-					w.Violate("bounds", fmt.Sprintf("Quantile(%v)=%.17g outside [min,max]=[%.17g,%.17g] (n=%d)", q, got, min, max, n), sub(q))
+				// the estimate is a convex combination of two order
+				// statistics: it cannot leave their closed interval, nor
+				// [min,max]; no slack (the tolerance above is only for the
+				// distance to the exact interpolant)
+				if !math.IsNaN(got) {
+					w.Eval("bracket")
+					if got < min || got > max {
+						w.Violate("bounds", fmt.Sprintf("Quantile(%v)=%.17g outside [min,max]=[%.17g,%.17g] (n=%d)%s", q, got, min, max, n, tag), sub(q))
+					} else if got < info.BLo || got > info.BHi {
+						if info.BLo == info.BHi {
+							w.Violate("bracket", fmt.Sprintf("Quantile(%v)=%.17g on n=%d, but the order statistics around h=%.17g all equal %.17g: the estimate is that value exactly%s", q, got, n, info.H, info.BLo, tag), sub(q))
+						} else {
+							w.Violate("bracket", fmt.Sprintf("Quantile(%v)=%.17g on n=%d is outside [%.17g,%.17g], the order statistics bracketing h=%.17g (+-16 eps)%s", q, got, n, info.BLo, info.BHi, info.H, tag), sub(q))
+						}
+					}
 				}
 			}
 			if w.WantSample() && inside && !info.Lo && !info.Hi && n > 2 {
@@ -288,7 +444,7 @@ func c10JudgeUnweighted(w *mon.W, c c10Case) {
 				if g.sorted {
 					kind = "sorted-flag"
 				}
-				w.Violate(kind, fmt.Sprintf("Quantile(%v) on n=%d: %.17g for the given order (Sorted=false) but %.17g for %s", q, n, got, g2, g.name), sub(q))
+				w.Violate(kind, fmt.Sprintf("Quantile(%v) on n=%d: %.17g for %s but %.17g for %s%s", q, n, got, pres[0].name, g2, g.name, tag), sub(q))
 			}
 		}
 		pts = append(pts, pt)
@@ -303,97 +459,204 @@ func c10JudgeUnweighted(w *mon.W, c c10Case) {
 		w.Eval("monotone-pair")
 		if a.got > b.got {
 			if !w.Err("monotone-slack", a.got-b.got, slack) {
-				w.Violate("monotone", fmt.Sprintf("Quantile(%v)=%.17g > Quantile(%v)=%.17g (n=%d)", a.q, a.got, b.q, b.got, n), sub(a.q, b.q))
+				w.Violate("monotone", fmt.Sprintf("Quantile(%v)=%.17g > Quantile(%v)=%.17g (n=%d)%s", a.q, a.got, b.q, b.got, n, tag), sub(a.q, b.q))
 			}
 		}
 	}
 
 	// IQR on every presentation
-	i75, i25 := ref.R8(sorted, 0.75), ref.R8(sorted, 0.25)
+	i75, i25 := d.r8(0.75), d.r8(0.25)
 	wantIQR := ref.Sub(i75.Val, i25.Val)
 	tolIQR := c10Tol(i75) + c10Tol(i25) + 4*c10Eps*math.Abs(ref.F64(wantIQR))
 	for _, g := range pres {
 		var iqr float64
 		w.Eval("IQR")
 		if p, v := mon.Call(func() { iqr = g.s.IQR() }); p {
-			w.Violate("panic", fmt.Sprintf("IQR panicked on n=%d (%s): %v", n, g.name, v), sub())
+			w.Violate("panic", fmt.Sprintf("IQR panicked on n=%d (%s): %v%s", n, g.name, v, tag), sub())
 			continue
 		}
 		if ok, what := g.intact(); !ok {
-			w.Violate("sample-modified", fmt.Sprintf("IQR on n=%d (%s) modified its receiver: %s", n, g.name, what), sub())
-			*g = *c10Present(g.name, append([]float64(nil), g.s.Xs...), nil, g.sorted)
+			w.Violate("sample-modified", fmt.Sprintf("IQR on n=%d (%s) modified its receiver: %s%s", n, g.name, what, tag), sub())
+			rearm(g)
 		}
 		q75, ok1 := call(g, 0.75)
 		q25, ok2 := call(g, 0.25)
 		if ok1 && ok2 && !c10Same(iqr, q75-q25) {
-			w.Violate("IQR-law", fmt.Sprintf("IQR()=%.17g but Quantile(.75)-Quantile(.25)=%.17g-%.17g=%.17g (n=%d, %s)", iqr, q75, q25, q75-q25, n, g.name), sub())
+			w.Violate("IQR-law", fmt.Sprintf("IQR()=%.17g but Quantile(.75)-Quantile(.25)=%.17g-%.17g=%.17g (n=%d, %s)%s", iqr, q75, q25, q75-q25, n, g.name, tag), sub())
 		}
-		var d float64
+		var dd float64
 		if math.IsNaN(iqr) || math.IsInf(iqr, 0) {
-			d = math.NaN()
+			dd = math.NaN()
 		} else {
-			d = ref.F64(ref.Abs(ref.Sub(ref.NF(iqr), wantIQR)))
+			dd = ref.F64(ref.Abs(ref.Sub(ref.NF(iqr), wantIQR)))
 		}
 		oracle := "IQR-ref"
 		if math.Max(i75.Mag, i25.Mag) < 1e-290 {
 			oracle = "IQR-ref(subnormal data)"
 		}
-		if !w.Err(oracle, d, tolIQR) {
-			w.Violate("IQR-ref", fmt.Sprintf("IQR()=%.17g on n=%d (%s), type 8 quartile difference is %.17g", iqr, n, g.name, ref.F64(wantIQR)), sub())
+		if !w.Err(oracle, dd, tolIQR) {
+			w.Violate("IQR-ref", fmt.Sprintf("IQR()=%.17g on n=%d (%s), type 8 quartile difference is %.17g%s", iqr, n, g.name, ref.F64(wantIQR), tag), sub())
 		}
 	}
-	w.Distinct(mon.NewHasher().Fs(xs).Fs(qs).Sum())
 }
 
 // ------------------------------------------------------------------ weighted
 
-func c10JudgeWeighted(w *mon.W, c c10Case) {
-	xs, ws := mon.Un(c.Xs), mon.Un(c.Ws)
-	qs := c10SortedQs(c.Qs)
-	n := len(xs)
-	if len(ws) != n {
-		return
-	}
-	for _, wt := range ws {
-		if !(wt > 0) || math.IsInf(wt, 0) {
-			return // outside the statement's domain (positive weights)
+// c10WData is one weighted data set with its reference-side quantities.
+type c10WData struct {
+	xs, ws, sx, sw, px, pw []float64
+	wq                     *ref.WQ
+	rel                    float64
+	strict                 bool // small integer weights (times a power of two): dyadic q are judged without a window
+	intW                   bool
+}
+
+// c10Scale returns ws * 2^e and whether every product is exact, finite and
+// normal (then all answers of the weighted rule are unchanged).
+func c10Scale(ws []float64, e int) ([]float64, bool) {
+	out := make([]float64, len(ws))
+	exact := true
+	for i, x := range ws {
+		out[i] = math.Ldexp(x, e)
+		if math.IsInf(out[i], 0) || math.Abs(out[i]) < 0x1p-1000 || math.Ldexp(out[i], -e) != x {
+			exact = false
 		}
 	}
-	wq := ref.NewWQ(xs, ws)
-	rel := 1e-12 + 16*float64(n)*c10Eps
+	return out, exact
+}
+
+// c10NewWData returns nil when the weights are outside the statement's
+// domain (positive, finite) or the lengths differ.
+func c10NewWData(xs, base []float64, wexp int, permSeed uint64) *c10WData {
+	n := len(xs)
+	if len(base) != n {
+		return nil
+	}
+	ws, exact := c10Scale(base, wexp)
+	for _, wt := range ws {
+		if !(wt > 0) || math.IsInf(wt, 0) {
+			return nil
+		}
+	}
+	d := &c10WData{xs: xs, ws: ws, wq: ref.NewWQ(xs, ws), rel: 1e-12 + 16*float64(n)*c10Eps}
 	// sorted presentation (stable: the reference side's own ordering)
 	idx := make([]int, n)
 	for i := range idx {
 		idx[i] = i
 	}
 	sort.SliceStable(idx, func(a, b int) bool { return xs[idx[a]] < xs[idx[b]] })
-	sx, sw := make([]float64, n), make([]float64, n)
-	intW := true
+	d.sx, d.sw = make([]float64, n), make([]float64, n)
+	d.intW = true
 	for i, k := range idx {
-		sx[i], sw[i] = xs[k], ws[k]
+		d.sx[i], d.sw[i] = xs[k], ws[k]
 		if ws[k] != math.Floor(ws[k]) {
-			intW = false
+			d.intW = false
 		}
 	}
-	px, pw := c10Permute(xs, ws, c.PermSeed)
+	d.px, d.pw = c10Permute(xs, ws, permSeed)
+	// With small integer weights (times an exact power of two) and a dyadic
+	// q every quantity of the rule (q*W, the cumulative weights, their
+	// differences) is exactly representable, so no rounding can excuse a
+	// wrong side of a tie: the statement's "exceeds" is then judged strictly
+	// (no ambiguity window).
+	d.strict = exact && n <= 1<<10
+	for _, x := range base {
+		if x != math.Floor(x) || x < 0 || x > 1<<20 {
+			d.strict = false
+		}
+	}
+	return d
+}
 
-	w.HitIf(wq.Ties, "weighted-ties")
-	w.HitIf(intW, "weighted-integer")
-	w.HitIf(!intW, "weighted-real")
+func (d *c10WData) arr(k int) (xs, ws []float64) {
+	switch k {
+	case 0:
+		return d.xs, d.ws
+	case 3:
+		return d.px, d.pw
+	}
+	return d.sx, d.sw
+}
+
+func (d *c10WData) exactQ(q float64) bool {
+	if !d.strict {
+		return false
+	}
+	_, e := math.Frexp(q) // q = m * 2^e, dyadic with few bits?
+	return e > -24 && q*float64(1<<24) == math.Floor(q*float64(1<<24))
+}
+
+// tieAt reports whether q*W is exactly a cumulative weight (reference side).
+func (d *c10WData) tieAt(q float64) bool {
+	t := new(big.Rat).Mul(new(big.Rat).SetFloat64(q), d.wq.W)
+	for _, cw := range d.wq.Cum {
+		if cw.Cmp(t) == 0 {
+			return true
+		}
+	}
+	return false
+}
+
+func c10JudgeWeighted(w *mon.W, c c10Case) {
+	xs := mon.Un(c.Xs)
+	n := len(xs)
+	d := c10NewWData(xs, mon.Un(c.Ws), c.WExp, c.PermSeed)
+	if d == nil {
+		return // outside the statement's domain
+	}
+	w.HitIf(d.wq.Ties, "weighted-ties")
+	w.HitIf(d.intW, "weighted-integer")
+	w.HitIf(!d.intW, "weighted-real")
 	w.HitIf(n == 1, "weighted-n=1")
 	w.HitIf(!sort.Float64sAreSorted(xs), "weighted-unsorted-input")
+	w.HitIf(c.WExp <= -40, "weights-scaled-down(2^-40|2^-200)")
+	w.HitIf(c.WExp >= 40, "weights-scaled-up(2^40|2^200)")
 
-	pres := []*c10Guarded{
-		c10Present("given order, Sorted=false", xs, ws, false),
-		c10Present("sorted data, Sorted=true", sx, sw, true),
-		c10Present("sorted data, Sorted=false", sx, sw, false),
-		c10Present("another permutation, Sorted=false", px, pw, false),
+	pres := make([]*c10Guarded, 4)
+	kind := map[*c10Guarded]int{}
+	for k := range pres {
+		ax, aw := d.arr(k)
+		pres[k] = c10Present(c10PresNames[k], ax, aw, k == 1)
+		kind[pres[k]] = k
 	}
-	sub := func(qq ...float64) c10Case {
-		s := c
+	plain := c10Plain(c)
+	subA := func(qq ...float64) c10Case {
+		s := plain
 		s.Qs = mon.Fs(qq)
 		return s
 	}
+	c10WPhase(w, d, c10SortedQs(c.Qs), pres, subA, "")
+
+	if len(c.Xs2) == n {
+		d2 := c10NewWData(mon.Un(c.Xs2), mon.Un(c.Ws2), c.WExp2, c.PermSeed^0x9e3779b97f4a7c15)
+		if d2 != nil {
+			whole := func(...float64) c10Case { return c }
+			w.Hit("buffer-reuse-weighted(in-place overwrite)")
+			for _, g := range pres {
+				g.load(d2.arr(kind[g]))
+			}
+			c10WPhase(w, d2, c10SortedQs(c.Qs2), pres, whole, c10TagReuse)
+			if c.Alt > 0 {
+				aq := c10AltQs(c.Qs2)
+				for _, g := range pres {
+					for r := 0; r < c.Alt && r < 8; r++ {
+						g.load(d.arr(kind[g]))
+						c10WPhase(w, d, aq, []*c10Guarded{g}, whole, c10TagAlt)
+						g.load(d2.arr(kind[g]))
+						c10WPhase(w, d2, aq, []*c10Guarded{g}, whole, c10TagAlt)
+					}
+				}
+			}
+			w.Distinct(mon.NewHasher().Fs(xs).Fs(d.ws).Fs(d2.xs).Fs(d2.ws).Fs(mon.Un(c.Qs)).Fs(mon.Un(c.Qs2)).Sum())
+			return
+		}
+	}
+	w.Distinct(mon.NewHasher().Fs(xs).Fs(d.ws).Fs(c10SortedQs(c.Qs)).Sum())
+}
+
+func c10WPhase(w *mon.W, d *c10WData, qs []float64, pres []*c10Guarded, sub func(...float64) c10Case, tag string) {
+	n := len(d.xs)
+	wq := d.wq
 	rearm := func(g *c10Guarded) {
 		*g = *c10Present(g.name, append([]float64(nil), g.s.Xs...), append([]float64(nil), g.s.Weights...), g.sorted)
 	}
@@ -401,11 +664,11 @@ func c10JudgeWeighted(w *mon.W, c c10Case) {
 		var got float64
 		w.Eval("Quantile(weighted)")
 		if p, v := mon.Call(func() { got = g.s.Quantile(q) }); p {
-			w.Violate("panic", fmt.Sprintf("weighted Quantile(%v) panicked on n=%d (%s): %v", q, n, g.name, v), sub(q))
+			w.Violate("panic", fmt.Sprintf("weighted Quantile(%v) panicked on n=%d (%s): %v%s", q, n, g.name, v, tag), sub(q))
 			return 0, false
 		}
 		if ok, what := g.intact(); !ok {
-			w.Violate("sample-modified", fmt.Sprintf("weighted Quantile(%v) on n=%d (%s) modified its receiver: %s", q, n, g.name, what), sub(q))
+			w.Violate("sample-modified", fmt.Sprintf("weighted Quantile(%v) on n=%d (%s) modified its receiver: %s%s", q, n, g.name, what, tag), sub(q))
 			rearm(g)
 		}
 		return got, true
@@ -418,37 +681,14 @@ func c10JudgeWeighted(w *mon.W, c c10Case) {
 		}
 		return false
 	}
-	// With small integer weights and a dyadic q every quantity of the rule
-	// (q*W, the cumulative weights, their differences) is exactly
-	// representable, so no rounding can excuse a wrong side of a tie: the
-	// statement's "exceeds" is then judged strictly (no ambiguity window).
-	smallInts := true
-	for _, x := range ws {
-		if x != math.Floor(x) || x < 0 || x > 1<<20 {
-			smallInts = false
-		}
-	}
-	exactQ := func(q float64) bool {
-		if !smallInts || len(ws) > 1<<10 {
-			return false
-		}
-		m, e := math.Frexp(q) // q = m * 2^e, dyadic with few bits?
-		_ = m
-		return e > -24 && q*float64(1<<24) == math.Floor(q*float64(1<<24))
-	}
 	for _, q := range qs {
-		relq := rel
-		if exactQ(q) {
+		relq := d.rel
+		if d.exactQ(q) {
 			relq = 0
 		}
 		lo, hi := wq.Cands(q, relq)
-		if relq == 0 && q > 0 && q < 1 {
-			tw, _ := wq.W.Float64()
-			for k := range wq.Cum {
-				if cw, _ := wq.Cum[k].Float64(); cw == q*tw {
-					w.Hit("weighted-exact-tie-judged-strictly")
-				}
-			}
+		if relq == 0 && q > 0 && q < 1 && d.tieAt(q) {
+			w.Hit("weighted-exact-tie-judged-strictly")
 		}
 		w.HitIf(q < 0, "weighted-q<0")
 		w.HitIf(q > 1, "weighted-q>1")
@@ -470,25 +710,31 @@ func c10JudgeWeighted(w *mon.W, c c10Case) {
 				}
 				cw, _ := wq.Cum[lo].Float64()
 				tw, _ := wq.W.Float64()
-				w.Violate("weighted", fmt.Sprintf("weighted Quantile(%v)=%v on n=%d (%s); first value whose cumulative weight exceeds q*W=%.17g is %s (cumulative weight there %.17g, W=%.17g)", q, got, n, g.name, q*tw, want, cw, tw), sub(q))
+				w.Violate("weighted", fmt.Sprintf("weighted Quantile(%v)=%v on n=%d (%s); first value whose cumulative weight exceeds q*W=%.17g is %s (cumulative weight there %.17g, W=%.17g)%s", q, got, n, g.name, q*tw, want, cw, tw, tag), sub(q))
 			}
 			if w.WantSample() && lo == hi && q > 0 && q < 1 && n > 3 {
 				w.Sample(map[string]any{"weighted": true, "n": n, "q": q, "Quantile": got, "ref": wq.Vals[lo]})
 			}
 		}
 	}
-	// IQR
-	lo75, hi75 := wq.Cands(0.75, rel)
-	lo25, hi25 := wq.Cands(0.25, rel)
+	// IQR: against the rule (quartiles judged strictly when exact) and
+	// against the library's own two quartiles (the statement's law, bit-exact)
+	relq := d.rel
+	if d.exactQ(0.25) && d.exactQ(0.75) {
+		relq = 0
+		w.HitIf(d.tieAt(0.25) || d.tieAt(0.75), "weighted-IQR-exact-tie-judged-strictly")
+	}
+	lo75, hi75 := wq.Cands(0.75, relq)
+	lo25, hi25 := wq.Cands(0.25, relq)
 	for _, g := range pres {
 		var iqr float64
 		w.Eval("IQR(weighted)")
 		if p, v := mon.Call(func() { iqr = g.s.IQR() }); p {
-			w.Violate("panic", fmt.Sprintf("weighted IQR panicked on n=%d (%s): %v", n, g.name, v), sub())
+			w.Violate("panic", fmt.Sprintf("weighted IQR panicked on n=%d (%s): %v%s", n, g.name, v, tag), sub())
 			continue
 		}
 		if ok, what := g.intact(); !ok {
-			w.Violate("sample-modified", fmt.Sprintf("weighted IQR on n=%d (%s) modified its receiver: %s", n, g.name, what), sub())
+			w.Violate("sample-modified", fmt.Sprintf("weighted IQR on n=%d (%s) modified its receiver: %s%s", n, g.name, what, tag), sub())
 			rearm(g)
 		}
 		found := false
@@ -500,10 +746,14 @@ func c10JudgeWeighted(w *mon.W, c c10Case) {
 			}
 		}
 		if !found {
-			w.Violate("IQR-weighted", fmt.Sprintf("weighted IQR()=%v on n=%d (%s); quartiles by the cumulative-weight rule are %v and %v", iqr, n, g.name, wq.Vals[lo25:hi25+1], wq.Vals[lo75:hi75+1]), sub())
+			w.Violate("IQR-weighted", fmt.Sprintf("weighted IQR()=%v on n=%d (%s); quartiles by the cumulative-weight rule are %v and %v%s", iqr, n, g.name, wq.Vals[lo25:hi25+1], wq.Vals[lo75:hi75+1], tag), sub())
+		}
+		q75, ok1 := call(g, 0.75)
+		q25, ok2 := call(g, 0.25)
+		if ok1 && ok2 && !c10Same(iqr, q75-q25) {
+			w.Violate("IQR-law", fmt.Sprintf("weighted IQR()=%.17g but Quantile(.75)-Quantile(.25)=%.17g-%.17g=%.17g (n=%d, %s)%s", iqr, q75, q25, q75-q25, n, g.name, tag), sub())
 		}
 	}
-	w.Distinct(mon.NewHasher().Fs(xs).Fs(ws).Fs(qs).Sum())
 }
 
 // --------------------------------------------------------------------- empty
@@ -545,7 +795,7 @@ func c10JudgeEmpty(w *mon.W, c c10Case) {
 
 // ---------------------------------------------------------------- generators
 
-const c10Families = 12
+const c10Families = 13
 
 // c10Values draws n finite values (with repeats in several families).
 func c10Values(rng *mon.Rand, n, fam int) []float64 {
@@ -605,11 +855,20 @@ func c10Values(rng *mon.Rand, n, fam int) []float64 {
 		for i := range xs {
 			xs[i] = rng.Uniform(-1, 1) * 1e-310
 		}
-	default: // one outlier among clustered values
+	case 11: // one outlier among clustered values
 		for i := range xs {
 			xs[i] = 1 + 1e-9*rng.Norm()
 		}
 		xs[rng.Intn(n)] = rng.Sign() * rng.LogUniform(1, 1e15)
+	default: // same sign, 1e307 < |x| <= MaxFloat64: gaps stay finite, sums of two values do not
+		sg := rng.Sign()
+		lo := rng.Pick(1.0000001e307, 9e307, 1.7e308)
+		for i := range xs {
+			xs[i] = sg * rng.Uniform(lo, math.MaxFloat64)
+			if rng.Intn(16) == 0 {
+				xs[i] = sg * math.MaxFloat64
+			}
+		}
 	}
 	return xs
 }
@@ -687,12 +946,32 @@ func c10Weights(rng *mon.Rand, n, fam int) []float64 {
 	return ws
 }
 
+// c10WExp picks the power of two a whole weight vector is multiplied by.
+func c10WExp(rng *mon.Rand) int {
+	return rng.PickI(0, 0, 0, 0, 40, -40, 200, -200)
+}
+
+// c10ShortQs builds the 12 query points of one phase of a history case.
+func c10ShortQs(rng *mon.Rand, n int) []float64 {
+	qs := []float64{rng.Float64(), 0.5, 0.25, 0.75, 0, 1, rng.Uniform(-0.5, 0), 1 + rng.Uniform(0, 0.5) + 1e-9}
+	for k := 0; k < 2; k++ {
+		b, _ := ref.BreakQ(n, 1+rng.Intn(n))
+		qs = append(qs, c10Near(rng, b))
+	}
+	for len(qs) < 12 {
+		qs = append(qs, rng.Float64())
+	}
+	return qs
+}
+
 func c10Run(r *mon.Run) {
-	r.Rule("random: samples of n=1..200 (sizes 1,2,3 / 5,21,85 / 198..200 forced on fixed index residues) from 12 value families (repeats, all-equal, two-valued, offsets 1e3..1e12, magnitudes 1e-300..1e300, subnormal, 1e307, pre-sorted, descending) x 40 q (0, 1, quartiles, +-1ulp around 0 and 1, q<0, q>1, nearest float to break points (3j-1)/(3n+1) and its neighbours incl. both clamp boundaries, inside both clamp regions, uniform); every q on 4 presentations (given order, second permutation, sorted with Sorted=true, sorted with Sorted=false) + IQR on each. breaks: every n=1..200 x every break point j=1..n x {nearest float, +-1ulp}. exhaustive: all sequences over a 3 (thorough 4) letter alphabet up to length 5 (thorough 7), i.e. all permutations of all such multisets. weighted: n=1..200, integer/unit/real/dyadic/dominant weights, values with and without ties, q at cumulative-weight fractions (ambiguity window), 1e-9 beside them, and uniform. empty: 8 variants x 11 q. Non-trivial = hits a class; distinct by hash of (xs,ws,qs).")
-	r.Assume("sample values finite with |x|<=1e307 (gaps do not overflow); weights positive and finite; NaN/Inf q, NaN data, negative or zero weights, len(Weights)!=len(Xs) and Sorted=true on unsorted data are outside the statement",
-		"unweighted tolerance 16 eps ((h+1) G + M) + 4e-323: G largest gap of the segment and its neighbours, M largest magnitude of the order statistics involved",
+	r.Rule("random: samples of n=1..200 (sizes 1,2,3 / 5,21,85 / 198..200 forced on fixed index residues) from 13 value families (repeats, all-equal, two-valued, offsets 1e3..1e12, magnitudes 1e-300..1e300, subnormal, +-1e307, same-sign 1e307..MaxFloat64, pre-sorted, descending) x 40 q (0, 1, quartiles, +-1ulp around 0 and 1, q<0, q>1, nearest float to break points (3j-1)/(3n+1) and its neighbours incl. both clamp boundaries, inside both clamp regions, uniform); every q on 4 presentations (given order, second permutation, sorted with Sorted=true, sorted with Sorted=false) + IQR on each. breaks: every n=1..200 x every break point j=1..n x {nearest float, +-1ulp}. exhaustive: all sequences over a 3 (thorough 4) letter alphabet up to length 5 (thorough 7), i.e. all permutations of all such multisets. weighted: n=1..200, integer/unit/real/dyadic/dominant weights, values with and without ties, q at cumulative-weight fractions (ambiguity window), 1e-9 beside them, and uniform; a third of the weight vectors times 2^+-40 or 2^+-200. reuse / reuse-weighted: 12 q on 4 presentations, then the same 4 backing arrays overwritten in place with another sample of the same length (other weights and scale) and 12 q again, then the two samples alternating twice through each buffer (3 q + IQR directly after each overwrite). empty: 8 variants x 11 q. Non-trivial = hits a class; distinct by hash of (xs,ws,qs).")
+	r.Assume("sample values finite with |x|<=1e307, or all of one sign up to MaxFloat64 (gaps between order statistics do not overflow); weights positive and finite; NaN/Inf q, NaN data, negative or zero weights, len(Weights)!=len(Xs) and Sorted=true on unsorted data are outside the statement",
+		"unweighted tolerance 16 eps ((h+1) G + M) + 4e-323: G largest gap of the segment and its neighbours, M largest magnitude of the order statistics involved; containment in [min,max] and in the bracketing order statistics (h +- 16 eps (h+1)) is exact",
 		"weighted ambiguity window (1e-12 + 16 n eps) W around every cumulative weight: both neighbouring values accepted")
-	r.Gate("weighted-exact-tie-judged-strictly", "q-at-break(+-1ulp)", "h-exact-integer", "q<0", "q>1", "q=0|1", "n=1", "n=2", "n>=150", "clamp-low(h<1)", "clamp-high(h>=n)",
+	r.Gate("huge-same-sign(|x|>1e307)", "equal-neighbours(exact answer)", "buffer-reuse(in-place overwrite)", "buffer-alternation", "buffer-reuse-weighted(in-place overwrite)",
+		"weights-scaled-down(2^-40|2^-200)", "weights-scaled-up(2^40|2^200)", "weighted-IQR-exact-tie-judged-strictly",
+		"weighted-exact-tie-judged-strictly", "q-at-break(+-1ulp)", "h-exact-integer", "q<0", "q>1", "q=0|1", "n=1", "n=2", "n>=150", "clamp-low(h<1)", "clamp-high(h>=n)",
 		"repeats", "all-equal", "unsorted-input", "empty",
 		"weighted-ties", "weighted-integer", "weighted-real", "weighted-q<0", "weighted-q>1", "weighted-unsorted-input", "weighted-ambiguous", "weighted-unambiguous")
 	if err := ref.C10SelfTest(); err != nil {
@@ -717,7 +996,7 @@ func c10Run(r *mon.Run) {
 	r.Parallel("breaks", 200*reps, func(w *mon.W, i int) {
 		rng := w.Rng
 		n := i%200 + 1
-		xs := c10Values(rng, n, []int{1, 0, 2, 8, 3, 5, 11, 6, 7, 9, 10, 4}[(i/200)%12])
+		xs := c10Values(rng, n, []int{1, 0, 2, 8, 3, 12, 5, 11, 6, 7, 9, 10, 4}[(i/200)%13])
 		qs := []float64{0, 1}
 		for j := 1; j <= n; j++ {
 			b, _ := ref.BreakQ(n, j)
@@ -766,10 +1045,11 @@ func c10Run(r *mon.Run) {
 		if i%2 == 0 {
 			xs = c10Values(rng, n, []int{0, 8, 5, 4}[(i/2)%4]) // ties among the values
 		} else {
-			xs = c10Values(rng, n, []int{1, 2, 3, 6, 7, 11}[(i/2)%6])
+			xs = c10Values(rng, n, []int{1, 2, 3, 6, 7, 11, 12}[(i/2)%7])
 		}
 		ws := c10Weights(rng, n, i/4)
-		wq := ref.NewWQ(xs, ws)
+		wexp := c10WExp(rng)
+		wq := ref.NewWQ(xs, ws) // cumulative-weight fractions do not depend on the scale
 		qs := []float64{0, 1, 0.25, 0.5, 0.75, -0.5, 1.5, rng.Uniform(-0.5, 0), 1 + rng.Uniform(0, 0.5) + 1e-9,
 			math.Nextafter(0, 1), math.Nextafter(1, 0), 1e-300}
 		for k := 0; k < 6; k++ {
@@ -779,7 +1059,32 @@ func c10Run(r *mon.Run) {
 		for len(qs) < 40 {
 			qs = append(qs, rng.Float64())
 		}
-		c10Judge(w, c10Case{Xs: mon.Fs(xs), Ws: mon.Fs(ws), Weighted: true, Qs: mon.Fs(qs), PermSeed: rng.Uint64()})
+		c10Judge(w, c10Case{Xs: mon.Fs(xs), Ws: mon.Fs(ws), WExp: wexp, Weighted: true, Qs: mon.Fs(qs), PermSeed: rng.Uint64()})
+	})
+
+	// history: one set of buffers, several samples
+	r.Parallel("reuse", r.Pick(1500, 20000), func(w *mon.W, i int) {
+		rng := w.Rng
+		n := c10N(rng, i)
+		if n == 1 && i%2 == 0 {
+			n = 2 + rng.Intn(30)
+		}
+		f1 := rng.Intn(c10Families)
+		f2 := f1
+		if rng.Bool() {
+			f2 = rng.Intn(c10Families)
+		}
+		xs, xs2 := c10Values(rng, n, f1), c10Values(rng, n, f2)
+		c10Judge(w, c10Case{Xs: mon.Fs(xs), Qs: mon.Fs(c10ShortQs(rng, n)), Xs2: mon.Fs(xs2), Qs2: mon.Fs(c10ShortQs(rng, n)), Alt: 2, PermSeed: rng.Uint64()})
+	})
+	r.Parallel("reuse-weighted", r.Pick(500, 6000), func(w *mon.W, i int) {
+		rng := w.Rng
+		n := c10N(rng, i)
+		fams := []int{0, 8, 5, 1, 2, 3, 7, 11, 12}
+		xs, xs2 := c10Values(rng, n, fams[rng.Intn(len(fams))]), c10Values(rng, n, fams[rng.Intn(len(fams))])
+		ws, ws2 := c10Weights(rng, n, rng.Intn(6)), c10Weights(rng, n, rng.Intn(6))
+		c10Judge(w, c10Case{Xs: mon.Fs(xs), Ws: mon.Fs(ws), WExp: c10WExp(rng), Weighted: true, Qs: mon.Fs(c10ShortQs(rng, n)),
+			Xs2: mon.Fs(xs2), Ws2: mon.Fs(ws2), WExp2: c10WExp(rng), Qs2: mon.Fs(c10ShortQs(rng, n)), Alt: 2, PermSeed: rng.Uint64()})
 	})
 
 	// empty samples
